@@ -24,7 +24,10 @@ WEIGHT_Q = {
     "po2_3m2": (lambda: Q.quantized_po2(3, max_value=2), 2.0, -2.0),
     "ternary": (lambda: Q.ternary(alpha=1.0), 1.0, -1.0),
     "binary": (lambda: Q.binary(alpha=1.0), 1.0, -1.0),
+    # data-dependent power-of-two scale per output channel: the reported (fused) accumulator has to absorb the scales
+    "auto4": (lambda: Q.quantized_bits(4, 0, 1, alpha="auto_po2"), 0.875, -0.875),
 }
+CH_FACTORS = [4.0, 0.25, 1.0, 8.0]
 INPUT_Q = {
     "bits6": ("quantized_bits(6,2,1)", 3.875, -4.0),       # symmetric=1: min code -3.875
     "relu4": ("quantized_relu(4,1)", 1.875, 0.0),
@@ -107,6 +110,8 @@ def main():
             k = np.random.RandomState(rnd.randint(0, 10 ** 6)).uniform(-4, 4, k.shape)
           else:
             k = np.full(k.shape, wmax if ws > 0 else wmin)
+          if l.name == "l1" and wq == "auto4" and kind != "depthwise":
+            k = k * np.array(CH_FACTORS[:k.shape[-1]])           # per-output-channel magnitudes -> scales != 1
           ws_[0] = np.asarray(qk(tf.constant(k, dtype=tf.float32)))
           if l.use_bias:
             qb = l.get_quantizers()[1]
@@ -119,6 +124,8 @@ def main():
         else:
           xin = np.full((1,) + shape, 100.0 if xs > 0 else -100.0)
         outs = probe.predict(xin.astype(np.float32), verbose=0)
+        if wq == "auto4":      # an eager call leaves a concrete quantizer.scale behind (predict() traces a graph)
+          model(tf.constant(xin[:1].astype(np.float32)))
         q = run_qtools.QTools(model, process="horowitz", source_quantizers=[Q.quantized_bits(8, 3, 1)],
                               is_inference=False, weights_path=None, keras_quantizer="fp32",
                               keras_accumulator="fp32", for_reference=False)
@@ -128,9 +135,14 @@ def main():
           item = dmap[l]
           get = lambda kk: qtools_util.get_val(item, kk)
           wts = l.get_weights()
+          auto = l.name == "l1" and wq == "auto4"
+          acc_item = get("fused_accumulator") if auto and get("fused_accumulator") is not None else get("accumulator")
+          if auto:       # the reported weight type describes the code: weight / scale
+            sc = np.asarray(l.get_quantizers()[0].scale, dtype=np.float64)
+            wts = [wts[0] / np.broadcast_to(sc, wts[0].shape)] + wts[1:]
           p, pg = stats(pre)
           ev = {"k": "layer", "meta": meta, "pattern": pname, "layer": l.name, "cls": l.__class__.__name__,
-                "acc": reported(get("accumulator").output), "wt": reported(get("weight_quantizer")),
+                "acc": reported(acc_item.output), "auto": int(auto), "wt": reported(get("weight_quantizer")),
                 "it": reported(get("input_quantizer_list")[0]), "hasb": int(bool(l.use_bias)),
                 "bt": reported(get("bias_quantizer")) if l.use_bias else reported(get("weight_quantizer")),
                 "pre": p, "pregran": pg, "w": stats(wts[0])[0], "b": stats(wts[1])[0] if l.use_bias else [[0, 0], [0, 0]],
